@@ -13,7 +13,8 @@ Local Open Scope N_scope.
 Definition name := list N.                 (* file name bytes *)
 Inductive tree :=
 | File (content : list N)
-| Dir (entries : list (name * tree)).
+| Dir (entries : list (name * tree))
+| Link.                                    (* a symbolic link to a directory outside DIR and DIR.old *)
 Definition slot := option tree.            (* None = the path does not exist *)
 Record world := { dir : slot; old : slot }.
 
@@ -48,6 +49,7 @@ Definition is_uftrace_directory (es : list (name * tree)) : bool :=
   match lookup n_info es with
   | Some (File c) => list_eqb (sig_of c) magic8          (* open ok: the magic decides *)
   | Some (Dir _) => false                                  (* open ok, read fails: sig stays zero *)
+  | Some Link => false                                     (* opens the directory it points to: read fails as well *)
   | None => match lookup n_default_opts es with Some _ => true | None => false end
   end.
 Definition is_empty_directory (es : list (name * tree)) : bool :=
@@ -127,6 +129,7 @@ Definition foreign (s : slot) : bool :=
 Fixpoint tree_eqb (a b : tree) {struct a} : bool :=
   match a, b with
   | File x, File y => list_eqb x y
+  | Link, Link => true
   | Dir xs, Dir ys =>
       (fix go (l1 l2 : list (name * tree)) {struct l1} : bool :=
          match l1, l2 with
@@ -182,6 +185,7 @@ Fixpoint insert_entry (e : name * tree) (l : list (name * tree)) : list (name * 
 Fixpoint norm (t : tree) : tree :=
   match t with
   | File c => File c
+  | Link => Link
   | Dir es => Dir (fold_right insert_entry [] (map (fun e => (fst e, norm (snd e))) es))
   end.
 Definition norm_slot (s : slot) : slot := option_map norm s.
@@ -222,3 +226,22 @@ Definition record_run_host (guarded : bool) (w : world) (r : run) : world * resu
 Definition live_run (guarded_cleanup : bool) (w : world) (r : run) : world :=
   let w' := fst (record_run true w r) in
   {| dir := if guarded_cleanup && negb (can_remove (dir w')) then dir w' else None; old := old w' |}.
+
+(* ----- what lies OUTSIDE DIR and DIR.old: remove_directory must not follow a symbolic link ----- *)
+Fixpoint has_link (t : tree) : bool :=
+  match t with
+  | Link => true
+  | File _ => false
+  | Dir es => (fix go (l : list (name * tree)) : bool :=
+                 match l with [] => false | (_, u) :: r => has_link u || go r end) es
+  end.
+(* remove_directory(t) with [follow] = the entries are examined with stat() (the code as found): a link to a directory
+   is taken for a directory and what it points to is emptied; with lstat() (repaired) the link itself is unlinked *)
+Definition remove_effect (follow : bool) (t : tree) (ext : slot) : slot :=
+  if follow && has_link t then match ext with Some (Dir _) => Some (Dir []) | _ => ext end else ext.
+(* the outside directory after `uftrace record -d DIR`: create_directory removes DIR.old (only) when both DIR and
+   DIR.old may be replaced *)
+Definition outside_after (follow : bool) (w : world) (ext : slot) : slot :=
+  if can_remove (dir w) && can_remove (old w)
+  then match old w with Some t => remove_effect follow t ext | None => ext end
+  else ext.
